@@ -180,11 +180,23 @@ func (e *Engine) argRootsField(v ssa.Value, field string) (bool, string) {
 }
 
 func runC12(e *Engine, r *Report, tier string) {
-	r.Explanation = "C12, structural clauses. Decided: R1 three-way table agreement per object kind (oracle set, batch, bridge call): the argument list of the contract's abi.encode(...) at the hashing site in every solidity/contracts/bridge/FxBridgeLogic*.sol, the input list of the ABI pseudo-method the EVM encoder packs (from the ABI JSON embedded in contract/IFxBridgeLogic.go) and the Go arguments of that Pack call have the same length and order; each Go argument is rooted in the record field that the ABI input name denotes; the bytes32 tag literal in Solidity equals the padded ASCII of the Go tag string; the first argument is the gravity id parameter; the EVM encoder hashes packed[4:]; the Tron encoder's ordered {type: value} list has the same types and field roots; R2 the three tags are pairwise distinct; R3 the confirm handlers fetch the object by the message's nonce (absent -> error), compute the checkpoint from that object with the gravity id from params, call the signature validation with the message's bridger / external address / signature and that checkpoint, refuse duplicates, and store under the oracle returned by the validation; the validation's success requires: external-address index found, oracle record found, record external address == message's, record bridger == message's bridger, signature check == nil over that checkpoint with the record's external address; R4 MsgConfirm wrapper signer == wrapped bridger (shared with C02.R3). Not decided: ECDSA/keccak properties, ABI encoding inside go-ethereum / gotron."
+	r.Explanation = "C12, structural clauses. Decided: R1 three-way table agreement per object kind (oracle set, batch, bridge call): the argument list of the contract's abi.encode(...) at the hashing site in every solidity/contracts/bridge/FxBridgeLogic*.sol, the input list of the ABI pseudo-method the EVM encoder packs (from the ABI JSON embedded in contract/IFxBridgeLogic.go) and the Go arguments of that Pack call have the same length and order; each Go argument is rooted in the record field that the ABI input name denotes; the bytes32 tag literal in Solidity equals the padded ASCII of the Go tag string; the first argument is the gravity id parameter; the EVM encoder hashes packed[4:]; the Tron encoder's ordered {type: value} list has the same types and field roots; R2 the three tags are pairwise distinct; R3 the confirm handlers fetch the object by the message's nonce (absent -> error), compute the checkpoint from that object with the gravity id from params, call the signature validation with the message's bridger / external address / signature and that checkpoint, refuse duplicates, and store under the oracle returned by the validation; the validation's success requires: external-address index found, oracle record found, record external address == message's, record bridger == message's bridger, signature check == nil over that checkpoint with the record's external address; R4 MsgConfirm wrapper signer == wrapped bridger (shared with C02.R3). R5 the bridger index (0x14) through which the confirming oracle is resolved agrees with the oracle records (imported from C13.R1). Not decided: ECDSA/keccak properties, ABI encoding inside go-ethereum / gotron."
 	r.Rule("R1", "checkpoint encoders agree with the contract's abi.encode and the ABI JSON, argument by argument", 9, "3 object kinds x (solidity, EVM encoder, Tron encoder)")
 	r.Rule("R2", "method tags pairwise distinct", 1, "")
 	r.Rule("R3", "confirm handlers + signature validation guards", 12, "3 handlers + validation routine")
 	r.Rule("R4", "MsgConfirm signer = wrapped bridger", 1, "")
+	// the confirming oracle is resolved from the submitting bridger through the bridger index (0x14): that index must agree
+	// with the records (C13.R1 for 0x14: co-written, re-keyed on edit, deleted under the record's own bridger)
+	r.Rule("R5", "the bridger index (0x14) through which the confirming oracle is resolved agrees with the oracle records (C13.R1 for 0x14)", 3, "C13 obligations")
+	{
+		sub13 := NewReport("C13", "other")
+		runC13(e, sub13, tier)
+		for _, o := range sub13.Obls {
+			if o.Rule == "R1" && (strings.Contains(o.Construct, "0x14") || strings.Contains(strings.ToLower(o.Construct), "bridger")) {
+				r.add("R5", "C13.R1 "+o.Construct, o.Status, o.Pos, o.Detail)
+			}
+		}
+	}
 
 	abis := e.bridgeABIMethods()
 	sols := e.solidityEncodeSites()
